@@ -89,11 +89,13 @@ pub enum Op {
 
 /// Compare an iterator with the model (a VecDeque over the oracle list) under one op sequence,
 /// then finish with each consuming operation.
-pub fn run_history<T, I>(prop: &str, what: &str, mk: &dyn Fn() -> I, oracle: &[T], ops: &[Op], out: &mut Out)
+pub fn run_history<T0, T, I>(prop: &str, what: &str, mk: &dyn Fn() -> I, proj: &dyn Fn(T0) -> T, oracle: &[T], ops: &[Op], out: &mut Out)
 where
     T: Copy + PartialEq + Debug,
-    I: Iterator<Item = T> + DoubleEndedIterator + ExactSizeIterator + FusedIterator,
+    I: Iterator<Item = T0> + DoubleEndedIterator + ExactSizeIterator + FusedIterator,
 {
+    // NOTE: the iterator under test is used directly (no adapter in between), so that the struct's own
+    // nth / nth_back / last / count / fold / rfold implementations are the ones exercised
     for fin in 0..7u8 {
         let mut it = mk();
         let mut model: VecDeque<T> = oracle.iter().copied().collect();
@@ -102,20 +104,20 @@ where
             let ctx = |s: &str| format!("{} ops={:?} step={} {}", what, ops, step, s);
             match *op {
                 Op::Next => {
-                    let (g, w) = (it.next(), model.pop_front());
+                    let (g, w) = (it.next().map(proj), model.pop_front());
                     if g != w { out.fail(prop, "history", ctx(&format!("next got={:?} want={:?}", g, w))); return; }
                 }
                 Op::NextBack => {
-                    let (g, w) = (it.next_back(), model.pop_back());
+                    let (g, w) = (it.next_back().map(proj), model.pop_back());
                     if g != w { out.fail(prop, "history", ctx(&format!("next_back got={:?} want={:?}", g, w))); return; }
                 }
                 Op::Nth(k) => {
-                    let g = it.nth(k);
+                    let g = it.nth(k).map(proj);
                     let w = { for _ in 0..k.min(model.len()) { model.pop_front(); } model.pop_front() };
                     if g != w { out.fail(prop, "history", ctx(&format!("nth({}) got={:?} want={:?}", k, g, w))); return; }
                 }
                 Op::NthBack(k) => {
-                    let g = it.nth_back(k);
+                    let g = it.nth_back(k).map(proj);
                     let w = { for _ in 0..k.min(model.len()) { model.pop_back(); } model.pop_back() };
                     if g != w { out.fail(prop, "history", ctx(&format!("nth_back({}) got={:?} want={:?}", k, g, w))); return; }
                 }
@@ -133,12 +135,12 @@ where
         let ctx = |s: &str| format!("{} after ops={:?} {}", what, ops, s);
         out.evals += 1;
         match fin {
-            0 => { let g: Vec<T> = it.collect(); if g != rest { out.fail(prop, "collect", ctx(&format!("got={:?} want={:?}", g, rest))); } }
-            1 => { let g: Vec<T> = it.rev().collect(); let mut w = rest.clone(); w.reverse(); if g != w { out.fail(prop, "rev", ctx(&format!("got={:?} want={:?}", g, w))); } }
+            0 => { let g: Vec<T> = it.map(proj).collect(); if g != rest { out.fail(prop, "collect", ctx(&format!("got={:?} want={:?}", g, rest))); } }
+            1 => { let g: Vec<T> = it.rev().map(proj).collect(); let mut w = rest.clone(); w.reverse(); if g != w { out.fail(prop, "rev", ctx(&format!("got={:?} want={:?}", g, w))); } }
             2 => { let g = it.count(); if g != rest.len() { out.fail(prop, "count", ctx(&format!("got={:?} want={:?}", g, rest.len()))); } }
-            3 => { let g = it.last(); let w = rest.last().copied(); if g != w { out.fail(prop, "last", ctx(&format!("got={:?} want={:?}", g, w))); } }
-            4 => { let g = it.fold(Vec::new(), |mut a, x| { a.push(x); a }); if g != rest { out.fail(prop, "fold", ctx(&format!("got={:?} want={:?}", g, rest))); } }
-            5 => { let g = it.rfold(Vec::new(), |mut a, x| { a.push(x); a }); let mut w = rest.clone(); w.reverse(); if g != w { out.fail(prop, "rfold", ctx(&format!("got={:?} want={:?}", g, w))); } }
+            3 => { let g = it.last().map(proj); let w = rest.last().copied(); if g != w { out.fail(prop, "last", ctx(&format!("got={:?} want={:?}", g, w))); } }
+            4 => { let g = it.fold(Vec::new(), |mut a, x| { a.push(proj(x)); a }); if g != rest { out.fail(prop, "fold", ctx(&format!("got={:?} want={:?}", g, rest))); } }
+            5 => { let g = it.rfold(Vec::new(), |mut a, x| { a.push(proj(x)); a }); let mut w = rest.clone(); w.reverse(); if g != w { out.fail(prop, "rfold", ctx(&format!("got={:?} want={:?}", g, w))); } }
             _ => {
                 // fused: drain, then None forever from both ends, len 0
                 while it.next().is_some() {}
@@ -154,31 +156,31 @@ where
 }
 
 /// systematic + seeded random histories
-pub fn check_iterator<T, I>(prop: &str, what: &str, mk: &dyn Fn() -> I, oracle: &[T], seed: u64, depth: usize, randoms: usize, out: &mut Out)
+pub fn check_iterator<T0, T, I>(prop: &str, what: &str, mk: &dyn Fn() -> I, proj: &dyn Fn(T0) -> T, oracle: &[T], seed: u64, depth: usize, randoms: usize, out: &mut Out)
 where
     T: Copy + PartialEq + Debug,
-    I: Iterator<Item = T> + DoubleEndedIterator + ExactSizeIterator + FusedIterator,
+    I: Iterator<Item = T0> + DoubleEndedIterator + ExactSizeIterator + FusedIterator,
 {
     let n = oracle.len();
     // plain
-    run_history(prop, what, mk, oracle, &[], out);
+    run_history(prop, what, mk, proj, oracle, &[], out);
     // all front/back interleavings up to `depth` (meeting in the middle when n is small)
     let d = depth.min(n + 2).min(10);
     for bits in 0..(1u32 << d) {
         let ops: Vec<Op> = (0..d).map(|i| if bits >> i & 1 == 0 { Op::Next } else { Op::NextBack }).collect();
-        run_history(prop, what, mk, oracle, &ops, out);
+        run_history(prop, what, mk, proj, oracle, &ops, out);
         if out.lines.len() >= 40 { return; }
     }
     // drain completely from each end, and alternately
-    run_history(prop, what, mk, oracle, &vec![Op::Next; n + 2], out);
-    run_history(prop, what, mk, oracle, &vec![Op::NextBack; n + 2], out);
+    run_history(prop, what, mk, proj, oracle, &vec![Op::Next; n + 2], out);
+    run_history(prop, what, mk, proj, oracle, &vec![Op::NextBack; n + 2], out);
     let alt: Vec<Op> = (0..n + 3).map(|i| if i % 2 == 0 { Op::Next } else { Op::NextBack }).collect();
-    run_history(prop, what, mk, oracle, &alt, out);
+    run_history(prop, what, mk, proj, oracle, &alt, out);
     // nth beyond the remaining length, nth at the boundary
     for k in [0usize, 1, n.saturating_sub(1), n, n + 1, usize::MAX] {
-        run_history(prop, what, mk, oracle, &[Op::Nth(k), Op::Len, Op::Next, Op::NextBack], out);
-        run_history(prop, what, mk, oracle, &[Op::NthBack(k), Op::SizeHint, Op::NextBack, Op::Next], out);
-        run_history(prop, what, mk, oracle, &[Op::Next, Op::NextBack, Op::Nth(k), Op::NthBack(k), Op::Len], out);
+        run_history(prop, what, mk, proj, oracle, &[Op::Nth(k), Op::Len, Op::Next, Op::NextBack], out);
+        run_history(prop, what, mk, proj, oracle, &[Op::NthBack(k), Op::SizeHint, Op::NextBack, Op::Next], out);
+        run_history(prop, what, mk, proj, oracle, &[Op::Next, Op::NextBack, Op::Nth(k), Op::NthBack(k), Op::Len], out);
     }
     let mut rng = Rng(seed | 1);
     for _ in 0..randoms {
@@ -193,7 +195,7 @@ where
                 _ => Op::SizeHint,
             })
             .collect();
-        run_history(prop, what, mk, oracle, &ops, out);
+        run_history(prop, what, mk, proj, oracle, &ops, out);
         if out.lines.len() >= 40 { return; }
     }
 }
